@@ -328,6 +328,36 @@ def c12(ctx):
                   exhaustive=True)
 
 
+# ----------------------------------------------------------------------------- C15
+def keydec_cases(ctx):
+    cases = gen(ctx, "Gen_C15", cfgtext(invariants=["BasesOK", "Emit"], constants=dict(Depth=1, TreeMut="TRUE")), timeout=3000, heap="8g")
+    cases += gen(ctx, "Gen_C15", cfgtext(invariants=["Emit"], constants=dict(Depth=2 if ctx.quick() else 3, TreeMut="FALSE")), timeout=3000, heap="12g")
+    seen, out = set(), []
+    for c in cases:
+        k = tuple(c["bytes"])
+        if k not in seen:
+            seen.add(k)
+            c["src"] = "tlc"
+            out.append(c)
+    return out
+
+
+@prop("C15")
+def c15(ctx):
+    cases = keydec_cases(ctx)
+    events = harness(ctx, ["exec", "keydec"], cases)
+    rejects = judge(ctx, "Trace_C15", events)
+    return report(ctx, events, rejects,
+                  nontrivial=lambda e: e["acc"],
+                  key=lambda e: tuple(e["bytes"]),
+                  rule="TLC enumerates COSE_Key maps: 7 valid base keys (EC2 P-256/384/521 private/public, OKP Ed25519 private/public, symmetric, custom kty) and every "
+                       "change of one/two (thorough: three) of the dimensions kty, crv, alg, key_ops, x, y, d, extra labels to every other value kind and length "
+                       "class (0, size-1, size, size+1), plus every structural CBOR mutation of each base tree; Key.UnmarshalCBOR and everything reachable from an "
+                       "accepted key (re-encode twice, Signer, Verifier, PrivateKey, PublicKey, sign+verify) run on the real API; TLC judges every event; "
+                       "non-trivial = the key was accepted",
+                  exhaustive=True)
+
+
 def setup():
     ctx = Ctx("setup", "quick", 1)
     try:
